@@ -716,6 +716,9 @@ func (p *parser) readEqList() (list []any) {
 List:
 	for p.pos < len(p.buf) {
 		eq := p.readEq()
+		if eq.o != nil {
+			p.raise("a list member must be a constant")
+		}
 		list = append(list, eq.result)
 		b := p.skipSpace()
 		switch b {
